@@ -1,12 +1,13 @@
 #!/bin/bash
 # Independent re-check of the compiled property files with coqchk (-o prints the axioms of everything loaded).
 # usage: tools/coqchk.sh [rocq dir (default /verif/rocq; use a copy while checks are running)]
-# C17 depends on Interval.Tactic (the `interval` tactic): re-checking that library itself takes coqchk many hours, so for C17
+# C17 (and C19, which imports a lemma file of C17) depend on Interval.Tactic (the `interval` tactic): re-checking that library
+# itself takes coqchk many hours, so for these two
 # the library module Interval.Tactic and its dependencies are taken as checked (-admit); our own files are still re-checked.
 cd ${1:-/verif/rocq}
 for f in Properties/*.vo; do
   m=$(basename $f .vo)
   echo "== $m"
-  ADMIT=""; [ "$m" = "C17" ] && ADMIT="-admit Interval.Tactic"
+  ADMIT=""; case "$m" in C17|C19) ADMIT="-admit Interval.Tactic";; esac
   timeout 6000 coqchk -silent -o $ADMIT -Q . BV BV.Properties.$m 2>&1 | grep -v "^$" | tail -160
 done
